@@ -489,6 +489,7 @@ func (x *Exec) doCall(st *State, ins ssa.Instruction, c *ssa.CallCommon, d *defe
 			continue
 		}
 		env := x.newEnv(st)
+		env.spos = ins.Pos()
 		x.bindEventArgs(env, ev, args, nil)
 		for k, cl := range ev.Asserts {
 			t, err := env.evalBool(cl.Expr)
@@ -531,6 +532,7 @@ func (x *Exec) doCall(st *State, ins ssa.Instruction, c *ssa.CallCommon, d *defe
 		}
 		env := x.newEnv(st)
 		env.callPre = callPre
+		env.spos = ins.Pos()
 		x.bindEventArgs(env, ev, args, rets)
 		// statements run in the order written; later ones see earlier assignments
 		nAssert := 0
@@ -575,6 +577,7 @@ func (x *Exec) doCall(st *State, ins ssa.Instruction, c *ssa.CallCommon, d *defe
 			st.ghost[a.Var] = coerce(nv, old.T)
 			env = x.newEnv(st)
 			env.callPre = callPre
+			env.spos = ins.Pos()
 			x.bindEventArgs(env, ev, args, rets)
 		}
 	}
